@@ -109,6 +109,12 @@ impl Layer for DialogLayer {
                         (usages, requests)
                     }
                     Ordering::Greater => {
+                        // A different request with a number that is already waiting in the backlog must not
+                        // replace (and silence) the waiting one: leave it to the default handling.
+                        if dialog_entry.backlog.contains_key(&request_cseq) {
+                            return;
+                        }
+
                         // If its larger than the expected one store it inside the dialog's backlog and return.
                         dialog_entry.backlog.insert(request_cseq, request.take());
                         log::debug!("dialog received a message with cseq value above the expected one, saving it for later");
